@@ -177,6 +177,16 @@ def programs(tier: str) -> list[Program]:
     for keys in (["a,a", "a"], ["a,a", "a", "c"], ["a,a", "a>b", "c"], ["a>b", "b>a"][:1] + ["b"], ["a,b", "b,a", "a"]):
         ps.append(Program(f"keyed_lock(keys={'|'.join(keys)})", {"keys": keys, "cancels": 0, "combined": False},
                           (lambda ex, keys=keys: execute(ex, keys, 0, False)), max_dev=None if len(keys) <= 3 else 6))
+    if not q:
+        # deeper: five tasks, three cancellations, nested + back-to-back sections with cancellations
+        for keys, cancels, combined, md in ((["a", "a", "a", "b", "b"], 1, False, None), (["a", "a", "a", "b", "b"], 2, True, None), (["a", "a", "a", "a", "b"], 2, True, None),
+                                            (["a", "a", "a"], 3, True, None), (["a", "a", "b"], 3, True, None),
+                                            (["a,a", "a>b", "c"], 2, False, None), (["a>b", "b", "a"], 2, True, None),
+                                            (["a,b", "b,a", "a"], 2, False, None), (["a,a", "a,a", "a"], 2, True, None)):
+            ps.append(Program(f"keyed_lock(keys={'|'.join(keys)},cancels<={cancels},combined={combined})",
+                              {"keys": keys, "cancels": cancels, "combined": combined},
+                              (lambda ex, keys=keys, cancels=cancels, combined=combined: execute(ex, keys, cancels, combined)),
+                              max_dev=md))
     ps.append(Program("keyed_lock(keys=a,a|a|c,cancels<=1)", {"keys": ["a,a", "a", "c"], "cancels": 1, "combined": False},
                       (lambda ex: execute(ex, ["a,a", "a", "c"], 1, False)), max_dev=(5 if q else None)))
     return ps
